@@ -15,7 +15,7 @@
    finding F-C18-animate-in-loop-never-ticked). *)
 From Coq Require Import ZArith List Bool.
 From RV Require Import Host.LCDAnim Device.DLCDAnim Proofs.LCDAnimP Proofs.LCDAnimP2.
-From RV Require Import Gen.LcdAnimTables Proofs.LCDAnimG Proofs.LCDAnimP3.
+From RV Require Import Gen.LcdAnimTables Proofs.LCDAnimG Proofs.LCDAnimP3 Proofs.LCDAnimP4.
 Import ListNotations.
 Open Scope Z_scope.
 
@@ -78,6 +78,45 @@ Theorem C18_rate_limit_device_emit :
   rate_limited speed (step_times (snd (drun1 sty cols (fst (dstart_emit W sty cols row text speed lp)) nows))).
 Proof. exact rate_limit_device_emit. Qed.
 Print Assumptions C18_rate_limit_device_emit.
+
+(* the EXACT schedule (no clock hypothesis): which ticks of any history are steps is decided by the
+   tick times, speed_ms, the loop flag and the total number of steps alone - [due_flags] mentions no
+   frame code.  A tick is a step iff steps are left and it is not early with respect to the latest
+   step ITSELF: after a late pass the following quick passes are measured from the late pass (no
+   burst of catching-up steps), and a pass that is not early is never skipped (one step per due pass) *)
+Theorem C18_step_schedule_device :
+  forall (sty : style) (cols row : Z) (text : list Z) (speed : Z) (lp : bool) (nows : list Z),
+  1 <= cols ->
+  step_flags (snd (drun1 sty cols (fst (dstart sty cols row text speed lp)) nows)) =
+  due_flags speed lp 0 (dsteps_total sty cols text) nows.
+Proof. exact step_schedule_device. Qed.
+Print Assumptions C18_step_schedule_device.
+
+(* ... through the emitted call (speed_ms cast to a W-bit unsigned long) *)
+Theorem C18_step_schedule_device_emit :
+  forall (W : Z) (sty : style) (cols row : Z) (text : list Z) (speed : Z) (lp : bool) (nows : list Z),
+  1 <= cols ->
+  step_flags (snd (drun1 sty cols (fst (dstart_emit W sty cols row text speed lp)) nows)) =
+  due_flags (ulong_cast W speed) lp 0 (dsteps_total sty cols text) nows.
+Proof. exact step_schedule_device_emit. Qed.
+Print Assumptions C18_step_schedule_device_emit.
+
+(* state.last_step after any history is the time of the latest step (0: none yet) - never a time
+   computed from speed_ms *)
+Theorem C18_last_step_recorded_device :
+  forall (sty : style) (cols row : Z) (text : list Z) (speed : Z) (lp : bool) (nows : list Z),
+  let r := drun1 sty cols (fst (dstart sty cols row text speed lp)) nows in
+  d_last (fst r) = last_step_time 0 (snd r).
+Proof. exact last_step_recorded_device. Qed.
+Print Assumptions C18_last_step_recorded_device.
+
+(* a looping animation skips a pass only because the pass is early: speed_ms > 0, the latest step
+   happened with the clock running, and the pass is closer than speed_ms to it *)
+Theorem C18_no_step_lost_device :
+  forall (sty : style) (cols row : Z) (text : list Z) (speed : Z) (nows : list Z),
+  no_step_lost speed 0 (snd (drun1 sty cols (fst (dstart sty cols row text speed true)) nows)).
+Proof. exact no_step_lost_device. Qed.
+Print Assumptions C18_no_step_lost_device.
 
 (* one LCDTick = exactly one tick helper call per registered animation of that display, in order *)
 Theorem C18_tick_each_once :
@@ -279,6 +318,33 @@ Theorem C18_rate_limit_host :
 Proof. exact rate_limit_host. Qed.
 Print Assumptions C18_rate_limit_host.
 
+(* the exact schedule on the host (times non-negative: the host tests last_tick for non-zero, the
+   device last_step > 0): the same [due_flags], speed clamped at 0, with the host's own step total *)
+Theorem C18_step_schedule_host :
+  forall (cols rows : Z) (sty : style) (row : Z) (text : list Z) (speed : Z) (lp : bool) (nows : list Z)
+         (stn : hstate) (tr : list (Z * bool * list hev)),
+  1 <= cols -> Forall (fun t => 0 <= t) nows ->
+  hsteps cols rows (hstart sty row text speed lp) nows stn tr ->
+  step_flags tr = due_flags (Z.max 0 speed) lp 0 (hsteps_total sty cols text) nows.
+Proof. exact step_schedule_host. Qed.
+Print Assumptions C18_step_schedule_host.
+
+Theorem C18_last_step_recorded_host :
+  forall (cols rows : Z) (sty : style) (row : Z) (text : list Z) (speed : Z) (lp : bool) (nows : list Z)
+         (stn : hstate) (tr : list (Z * bool * list hev)),
+  hsteps cols rows (hstart sty row text speed lp) nows stn tr -> h_last stn = last_step_time 0 tr.
+Proof. exact last_step_recorded_host. Qed.
+Print Assumptions C18_last_step_recorded_host.
+
+Theorem C18_no_step_lost_host :
+  forall (cols rows : Z) (sty : style) (row : Z) (text : list Z) (speed : Z) (nows : list Z)
+         (stn : hstate) (tr : list (Z * bool * list hev)),
+  Forall (fun t => 0 <= t) nows ->
+  hsteps cols rows (hstart sty row text speed true) nows stn tr ->
+  no_step_lost (Z.max 0 speed) 0 tr.
+Proof. exact no_step_lost_host. Qed.
+Print Assumptions C18_no_step_lost_host.
+
 (* every tick of such a run: no sleep, only the animation's row, exactly cols cells *)
 Theorem C18_host_run_events :
   forall (cols rows : Z) (st : hstate) (nows : list Z) (stn : hstate) (tr : list (Z * bool * list hev)),
@@ -341,6 +407,38 @@ Print Assumptions C18_tables_complete.
 Example C18_ex_tick_times : tick_times_ok [1; 1; 50; 101; 101; 350].
 Proof. exact ex_tick_times. Qed.
 Print Assumptions C18_ex_tick_times.
+
+(* a schedule with early ticks, one very late pass (250 -> 900) and quick passes after it *)
+Example C18_ex_burst_ticks : tick_times_ok burst_ticks /\
+  burst_ticks = [50; 60; 149; 150; 151; 250; 900; 905; 910; 915; 920; 999; 1000; 1001; 1099; 1100; 1500; 1501; 1550; 1600].
+Proof. exact (conj ex_burst_ticks_ok eq_refl). Qed.
+Print Assumptions C18_ex_burst_ticks.
+
+(* device, looping scroll "Hey" on 8 columns, speed 100, on that schedule: the passes 905..999 after the
+   late one are all skipped, the next step is at 1000; last_step ends as the time of the latest step *)
+Example C18_ex_device_burst :
+  let r := drun1 Scroll 8 (fst (dstart Scroll 8 0 [72; 101; 121] 100 true)) burst_ticks in
+  step_times (snd r) = [50; 150; 250; 900; 1000; 1100; 1500; 1600] /\ d_last (fst r) = 1600 /\
+  due_flags 100 true 0 1 burst_ticks = step_flags (snd r).
+Proof. exact ex_device_burst. Qed.
+Print Assumptions C18_ex_device_burst.
+
+(* that schedule discriminates: a limiter that advances last_step by speed_ms after a step ("steady
+   cadence") instead of recording the time of the step would step at 900 and again at 905, although
+   it takes exactly the model's steps on a schedule without a late pass *)
+Example C18_ex_cadence_would_burst :
+  ~ rate_limited 100 (cadence_times 100 0 burst_ticks) /\
+  cadence_times 100 0 [50; 60; 149; 150; 151; 250; 300; 350; 351; 450] =
+  step_times (snd (drun1 Scroll 8 (fst (dstart Scroll 8 0 [72; 101; 121] 100 true)) [50; 60; 149; 150; 151; 250; 300; 350; 351; 450])).
+Proof. exact (conj ex_cadence_not_rate_limited ex_cadence_same_without_late_pass). Qed.
+Print Assumptions C18_ex_cadence_would_burst.
+
+(* host, looping bounce on the same schedule *)
+Example C18_ex_host_burst :
+  exists stn tr, hsteps 8 2 (hstart Bounce 1 [72; 101; 121] 100 true) burst_ticks stn tr /\
+                 step_times tr = [50; 150; 250; 900; 1000; 1100; 1500; 1600] /\ h_last stn = 1600.
+Proof. exact ex_host_burst. Qed.
+Print Assumptions C18_ex_host_burst.
 
 (* device, "AB" scrolling on 3 columns, speed 100, ticks every 60 ms: the run performs exactly
    dsteps_total = 6 steps (so the termination bound is attained, not just an upper bound), is still
